@@ -102,6 +102,14 @@ def gen_bundle(rng, bundles, depth, maxdepth, fan, counter):
             subs.append([f"s{k}", sub, rng.random() < 0.5, rng.choice([None, None] + ROLES)])
     if not sigs and not subs:
         sigs = [gen_leaf(rng, 0)]
+    if subs and rng.random() < 0.12:
+        # a leaf whose name coincides with the joined path of a sub-bundle's leaf (`clk_p` next to `clk.p`)
+        sname, sbun = subs[0][0], bundles[subs[0][1]]
+        inner = sbun["sigs"][0][0] if sbun["sigs"] else None
+        if inner is not None:
+            amb = gen_leaf(rng, 9)
+            amb[0] = f"{sname}_{inner}"
+            sigs.append(amb)
     bundles[name] = {"sigs": sigs, "subs": subs, "roles": list(ROLES)}
     return name
 
@@ -151,14 +159,16 @@ def make_case(rng, maxdepth, fan):
     return design, meta
 
 
-def judge(rec, design, meta, sample=False):
+def judge(rec, design, meta, sample=False, reuse=None):
     root = meta["root"]
     exp = expected_leaves(design, root, meta["flip"], meta["role"])
     directed = any(d != "none" for _, _, d in exp) or any(isinstance(s[2], list) for b in design["bundles"].values() for s in b["sigs"])
     case = {"kind": "c10", "design": design, "meta": meta}
     rec.case(key=jhash(case), nontrivial=directed,
              sample={"meta": meta, "bundles": design["bundles"], "expected_ports": [["bp_" + "_".join(p), w, d] for p, w, d in exp]} if sample else None)
-    o = oracle.judge(design)
+    o = oracle.judge(design, reuse=reuse)
+    if reuse is not None:
+        rec.count("driver.bundle-definitions-reused")
     if o.status == "rejected":
         rec.count("outcome.rejected")
         rec.hist("rejections", o.exc[:80])
@@ -176,6 +186,25 @@ def judge(rec, design, meta, sample=False):
         return
     rec.count("ports.compared")
     want = {"bp_" + "_".join(p): (w, d) for p, w, d in exp}
+    if len(want) != len(exp):
+        # two leaves whose joined paths coincide: which of them gets the plain name is not laid down; demanded are one port per
+        # leaf, each with its leaf's width and direction, under the joined name up to trailing underscores
+        rec.count("ports.ambiguous-names")
+        from collections import Counter
+
+        wantc = Counter(("bp_" + "_".join(p), w, d) for p, w, d in exp)
+        gotc = Counter((n.rstrip("_") if n.rstrip("_") in want else n, w, d) for n, (w, d) in ports.items())
+        if wantc != gotc:
+            rec.violation("flattened-ports-wrong", f"leaves with coinciding joined names: expected ports (name up to trailing underscores, width, direction) "
+                                                   f"{sorted(wantc.elements())}, exported {sorted(gotc.elements())}", case=case)
+        nsig = Counter()
+        for p, w, _ in exp:
+            nsig[("bi_" + "_".join(p), w)] += 1
+        gots = Counter((n.rstrip("_"), w) for n, w in sigw.items() if n.startswith("bi_"))
+        if nsig != gots:
+            rec.violation("internal-bundle-signal-wrong", f"internal bundle leaves with coinciding joined names: expected {sorted(nsig.elements())}, "
+                                                          f"exported {sorted(gots.elements())}", case=case)
+        return o
     for name, (w, d) in want.items():
         depth = name.count("_")
         rec.hist("coverage", f"dir={d}")
@@ -197,6 +226,7 @@ def judge(rec, design, meta, sample=False):
     for leafkind in {("role" if isinstance(s[2], list) else s[2]) for b in design["bundles"].values() for s in b["sigs"]}:
         rec.hist("coverage_leafkinds", leafkind)
     rec.hist("coverage_forms", f"{meta['form']}/{meta['via']}/flip={meta['flip']}/role={'set' if meta['role'] else 'none'}")
+    return o
 
 
 def run(ctx, rec):
@@ -208,7 +238,10 @@ def run(ctx, rec):
         else:
             maxdepth, fan = rng.choice([(1, 3), (2, 2), (2, 3), (3, 2), (3, 3)])
         design, meta = make_case(rng, maxdepth, fan)
-        judge(rec, design, meta, sample=(k % 300 == 5))
+        o = judge(rec, design, meta, sample=(k % 300 == 5))
+        if k % 3 == 0 and o is not None and o.built is not None:
+            # a second design of the process using the SAME Bundle definitions (they were flattened once already)
+            judge(rec, design, meta, reuse=o.built)
     rec.exhaustive = False
 
 
@@ -217,4 +250,6 @@ def shards(ctx):
 
 
 def replay(ctx, rec, case):
-    judge(rec, case["design"], case["meta"], sample=True)
+    o = judge(rec, case["design"], case["meta"], sample=True)
+    if o is not None and o.built is not None:
+        judge(rec, case["design"], case["meta"], reuse=o.built)
